@@ -93,6 +93,9 @@ type op struct {
 func (o op) String() string {
 	switch o.kind {
 	case "create", "destroy":
+		if o.ver != "" {
+			return fmt.Sprintf("%s:%s:own=%s:ver=%s", o.kind, o.id, o.owner, o.ver)
+		}
 		return fmt.Sprintf("%s:%s:own=%s", o.kind, o.id, o.owner)
 	case "update":
 		return fmt.Sprintf("update:%s:ver=%s:own=%s:exp=%s:chg=%s", o.id, o.ver, o.owner, o.exp, o.chg)
@@ -321,6 +324,11 @@ func exec(ctx context.Context, st state.CoreState, o op, obj *conformance.IntRes
 	switch o.kind {
 	case "create":
 		r := conformance.NewIntResource(hx.NS, o.id, 1)
+		if o.ver == "stale" {
+			// an object that was stored before (a copy held across a destroy, or read from another state):
+			// whatever version it carries, a created resource starts at version 1
+			r.Metadata().SetVersion(version(3))
+		}
 		err = st.Create(ctx, r, state.WithCreateOwner(o.owner))
 		written = r
 	case "update":
@@ -449,6 +457,7 @@ func (in *inst) Ops() []string {
 	if in.arm != nil {
 		out = append(out, "armfail")
 	}
+	out = append(out, op{kind: "create", id: "a", owner: "", ver: "stale"}.String(), op{kind: "create", id: "b", owner: "o1", ver: "stale"}.String())
 	out = append(out, op{kind: "create", id: "b", owner: ""}.String(), op{kind: "destroy", id: "b", owner: ""}.String(),
 		op{kind: "update", id: "b", ver: "cur", owner: "", exp: "run", chg: "val"}.String(),
 		"get:a", "get:b", "list")
